@@ -106,6 +106,14 @@ def check(ctx):
     check_counter_capacity(ctx)
     from ..rules.forwarding import check_forwarding
     check_forwarding(ctx, {'bootstrap_iteration', 'n_assignments'})
+    check_runners_up_as_requested(ctx)
+    from ..rules.idioms import check_falsy_numeric_default
+    for fi_ in ctx.db.iter_functions():
+        if fi_.module.short in ('cli.from_specified_markers',
+                                'type_assignment.election',
+                                'type_assignment.election_runner'):
+            check_falsy_numeric_default(ctx, fi_)
+
 
 
 def _choose_node(ctx):
@@ -570,3 +578,61 @@ def _inside_loop_outside(stmt, inner):
             in_outer = True
         q = getattr(q, '_parent', None)
     return in_outer
+
+
+def check_runners_up_as_requested(ctx, rule='R-PROV/runners-up-as-requested'):
+    """the number of candidates the election keeps per cell is the
+    requested number of runners-up plus the winner: the `n_assignments`
+    handed to the election by the mapping front end is, as a polynomial,
+    config['type_assignment']['n_runners_up'] + 1 -- no default, clamp or
+    truthiness test in between (0 runners-up is a legal request)."""
+    from ..core import poly as P
+    from ..core.resolve import resolve_callee, bind_args
+    from ..core.loader import FunctionInfo
+    db = ctx.db
+    fi = db.fn('cli.from_specified_markers:_run_mapping')
+    ctx.touch(fi)
+    cfg = cfg_of(fi)
+    rd = rd_of(fi)
+    ex = Expander(fi)
+    N = P.atom(('N_RUNNERS_UP',))
+
+    def atoms(t):
+        if isinstance(t, tuple) and t and t[0] == 'sub' \
+                and t[2] == ('const', "'n_runners_up'"):
+            base = t[1]
+            if isinstance(base, tuple) and base and base[0] == 'sub' \
+                    and base[2] == ('const', "'type_assignment'") \
+                    and base[1] == ('param', 'config'):
+                return N
+        return None
+    n = 0
+    for node in cfg.nodes:
+        if node.id not in rd.live:
+            continue
+        for c in cfg.calls_in(node):
+            t = resolve_callee(db, fi, c)
+            if not (isinstance(t, FunctionInfo)
+                    and 'n_assignments' in t.params):
+                continue
+            m, _ = bind_args(t, c)
+            a = m.get('n_assignments')
+            if a is None:
+                continue
+            n += 1
+            term = ex.expand(a, node.id)
+            try:
+                ok = P.poly(term, atoms) == P._add(N, P.const(1))
+            except P.NotPolynomial:
+                ok = False
+            ctx.ob(rule, f'_run_mapping:{t.name}', fi.loc(c), ok,
+                   'the election keeps n_runners_up + 1 candidates'
+                   if ok else
+                   f'`n_assignments={unparse(a)[:40]}` is '
+                   f'{fmt_term(term)[:80]}, not the requested '
+                   "config['type_assignment']['n_runners_up'] + 1: the "
+                   'output lists another number of runners-up than was '
+                   'asked for')
+    if n == 0:
+        raise AnalysisError('_run_mapping: no call with n_assignments '
+                            'found')
